@@ -157,7 +157,7 @@ def c05_leaves(t):
 ''', timeout=T, prelude=PRE_REG, key="leaf_register_names", note="register-name assembly around an arbitrary back-reference text, every family x width"))
     hs.append(ch.H("c05/remove_access_suffix", '''def suffix_round_trip(base: str, w: int) -> bool:
     """
-    pre: len(base) == 3 and "." not in base and 0 <= w <= 7
+    pre: len(base) == 4 and base[-1] != "." and 0 <= w <= 7
     post: _
     """
     if w == 0:
@@ -175,9 +175,9 @@ def c05_leaves(t):
     elif w == 6:
         sfx = "8L"
     else:
-        return remove_access_suffix("&" + base) == "&" + base
+        return remove_access_suffix("&" + base + ".xx") == "&" + base + ".xx"
     return remove_access_suffix("&" + base + "." + sfx) == "&" + base
-''', timeout=T, prelude=PRE_REG, key="leaf_suffix", note="suffix stripping for an arbitrary capture name"))
+''', timeout=T, prelude=PRE_REG, key="leaf_suffix", note="suffix stripping for an arbitrary capture name (the name may contain dots of its own)"))
     return hs
 
 
